@@ -101,7 +101,12 @@ def appends(fn, P, L, creation_block=None):
                 ap_.orig = elems[0]
                 out.append(ap_)
                 continue
-            out.append(Append(b, APPEND[ln], elems[0] if elems else None, t['fn']['name'], b in loops))
+            kind_ = APPEND[ln]
+            if ln in ('write_u16', 'write_u32', 'write_u64'):
+                # byteorder: the byte order is the second generic argument
+                g_ = t['fn'].get('generic') or ''
+                kind_ = ('be:' if 'BigEndian' in g_ else 'le:' if 'LittleEndian' in g_ else '?e:') + kind_
+            out.append(Append(b, kind_, elems[0] if elems else None, t['fn']['name'], b in loops))
         else:
             out.append(Append(b, 'other:' + ln, elems[0] if elems else None, t['fn']['name'], b in loops))
     dom = fn.dominators()
@@ -208,6 +213,9 @@ class Canon:
                 el = 'LOOP(%s:%s)' % (a.kind, el)
             elif a.kind in ('u8', 'u16', 'u32', 'u64'):
                 el = '%s(%s)' % (a.kind, el)
+            elif a.kind.startswith(('be:', 'le:', '?e:')):
+                # write_uN::<BigEndian>(x)  ==  extend_from_slice(&x.to_be_bytes())
+                el = '%s:%s(%s)' % ({'be:': 'to_be_bytes', 'le:': 'to_le_bytes', '?e:': 'to_unknown_endian_bytes'}[a.kind[:3]], a.kind[3:], el)
             elif a.kind == 'byte':
                 el = 'byte(%s)' % el
             elif a.kind.startswith('other:'):
